@@ -227,9 +227,12 @@ def parse_casstype_args(typestring):
             else:
                 names.append(None)
 
-            try:
+            # only a vector's dimension is an integer; an all-digit token anywhere else is a
+            # name (e.g. the hex-encoded name of a user type such as 'test' -> 74657374)
+            enclosing = args[-2][0][-1] if len(args) > 1 else None
+            if isinstance(enclosing, type) and issubclass(enclosing, VectorType) and tok.isdigit():
                 ctype = int(tok)
-            except ValueError:
+            else:
                 ctype = lookup_casstype_simple(tok)
             types.append(ctype)
 
